@@ -118,26 +118,32 @@ func c05InterpJSON(c c05Case) (v kit.Verdict) {
 	o.class("ep:" + c.EP)
 	v.Fail, v.Known = c05Judge(o, out, "Unmarshal("+c.EP+")", func() string { return c05Describe(&c) })
 	if v.Fail == "" && res.IsValid() {
-		// Independence of results: the caller may modify what it got; a later
-		// unmarshal of the same document must not see that (defaults, memoised
-		// tag data and the input are not to be aliased by the result).
-		snapshot := c05DeepCopy(res)
-		if c05Scribble(res) {
-			o.class("repeat:scribbled-shared-capable-value")
-		}
-		t2, _ := c05Target(&c)
-		out2 := c05Run(c.EP, &c.D, t2.Interface())
-		switch {
-		case out2.Panic != nil:
-			v.Fail = fmt.Sprintf("P0 second Unmarshal(%s) of the same document panicked: %v | %s", c.EP, out2.Panic, c05Describe(&c))
-		case out2.Err != nil:
-			v.Fail = fmt.Sprintf("P1 second Unmarshal(%s) of the same document failed after the caller modified the first result: %v | %s", c.EP, out2.Err, c05Describe(&c))
-		case !reflect.DeepEqual(snapshot.Interface(), t2.Elem().Interface()):
-			v.Fail = fmt.Sprintf("P1 second Unmarshal(%s) of the same document gives %s, the first gave %s (the caller modified the first result in between) | %s",
-				c.EP, c05Sprint(t2.Elem()), c05Sprint(snapshot), c05Describe(&c))
-		}
+		v.Fail = c05Repeat(o, &c, res, "Unmarshal("+c.EP+")", func(t any) c05Outcome { return c05Run(c.EP, &c.D, t) })
 	}
 	return c05Finish(v, o, c05Depth(c.S))
+}
+
+// c05Repeat — independence of results: the caller may modify what it got; a
+// later unmarshal of the same document must not see that (declared defaults,
+// memoised tag data and the input must not be aliased by a result). first is
+// the accepted result of the first call; it is overwritten in place.
+func c05Repeat(o *c05Oracle, c *c05Case, first reflect.Value, what string, run func(target any) c05Outcome) string {
+	snapshot := c05DeepCopy(first)
+	if c05Scribble(first) {
+		o.class("repeat:result-had-slices-maps-pointers")
+	}
+	t2, _ := c05Target(c)
+	out2 := run(t2.Interface())
+	switch {
+	case out2.Panic != nil:
+		return fmt.Sprintf("P0 second %s of the same document panicked: %v | %s", what, out2.Panic, c05Describe(c))
+	case out2.Err != nil:
+		return fmt.Sprintf("P1 second %s of the same document failed after the caller modified the first result: %v | %s", what, out2.Err, c05Describe(c))
+	case !reflect.DeepEqual(snapshot.Interface(), t2.Elem().Interface()):
+		return fmt.Sprintf("P1 second %s of the same document gives %s, the first gave %s (the caller modified the first result in between) | %s",
+			what, c05Sprint(t2.Elem()), c05Sprint(snapshot), c05Describe(c))
+	}
+	return ""
 }
 
 // c05DeepCopy copies a value built from the generated kinds.
@@ -292,6 +298,11 @@ func c05InterpYAML(c c05Case) (v kit.Verdict) {
 			o.class("p3:both-error")
 		}
 	}
+	if v.Fail == "" && res.IsValid() {
+		v.Fail = c05Repeat(o, &c, res, "UnmarshalYamlBytes", func(t any) c05Outcome {
+			return c05Call(func() error { return mapping.UnmarshalYamlBytes([]byte(ys), t) })
+		})
+	}
 	return c05Finish(v, o, c05Depth(c.S))
 }
 
@@ -444,6 +455,11 @@ func c05InterpConf(c c05ConfCase) (v kit.Verdict) {
 		case o1.Err == nil && !reflect.DeepEqual(t1.Elem().Interface(), t3.Elem().Interface()):
 			v.Fail = fmt.Sprintf("P4 YAML with respelled keys gives a different struct: %s vs %s | %s", c05Sprint(t1.Elem()), c05Sprint(t3.Elem()), desc())
 		}
+	}
+	if v.Fail == "" && res.IsValid() {
+		v.Fail = c05Repeat(o, &cc, res, "conf.LoadFromJsonBytes", func(t any) c05Outcome {
+			return c05Call(func() error { return conf.LoadFromJsonBytes([]byte(j2), t) })
+		})
 	}
 	return c05Finish(v, o, c05Depth(c.S))
 }
